@@ -23,7 +23,7 @@ SPEC = dict(
         technique='Coq proof over generated tables (vm_compute, forallb) + run-time short-read monitor over the configuration space',
         design_ref='DESIGN.md section 5 (C14)'),
     stages=[stage_caps_correspondence, SP.inv_stage('window-monitor', lambda st, ctx, g: IM.mon_runtime(st, ctx, g, want=('C14',)))],
-    theorems=['C14_windows_partial', 'C14_mppt_refuted', 'C14_variants_are_sublists', 'C14_no_short_read', 'C14_meter_window_always_covers'],
+    theorems=['C14_read_runtime_data_is_the_model', 'C14_windows_partial', 'C14_mppt_refuted', 'C14_variants_are_sublists', 'C14_no_short_read', 'C14_meter_window_always_covers'],
     rule='configurations: ET serial class x rated power x refused optional blocks x battery_mode (thorough: complete product), DT models x meter refused',
     trusted_base=SP.TB_SENS,
     exhaustive=True,
